@@ -33,7 +33,7 @@ RULE = ('cases = (view, source size 0-3 rows (+ragged), schedule word over s_i/n
         'control switching between them while both were unfinished. Distinct = SHA-1 of the case.')
 ASSUMPTIONS = ['single-threaded cooperative schedules (petl has no threads)', 'twin views built from equal sources are deterministic (checked per view)']
 CACHING = ['sort', 'sort-key', 'sort-file-cache', 'sort-reverse-file', 'hashjoin', 'hashleftjoin', 'hashrightjoin', 'cache', 'cache-n2',
-           'x:fromdicts-generator', 'x:fromdicts-generator-sample2', 'join', 'distinct', 'aggregate-buffered']
+           'x:fromdicts-generator', 'x:fromdicts-generator-sample2', 'x:fromdicts-generator-shared-cells', 'join', 'distinct', 'aggregate-buffered']
 REQUIRED = ['views-judged', 'schedules-run', 'fresh-passes-compared'] + ['midfill:' + v for v in CACHING]
 EXHAUSTIVE = {'quick': False, 'thorough': False}
 
@@ -74,9 +74,21 @@ def setup(ctx):
     _files['mem:pickle2'] = MemorySource(sink.getvalue())
 
 
+_SHARED = ('shared', 'tuple')
+
+
 def _dictgen(n):
     for i in range(n):
         yield {'a': i, 'b': str(i)}
+
+
+def _dictgen_shared(n):
+    # every record carries the very same str / tuple objects, and odd records lack a key (filled with `missing`)
+    for i in range(n):
+        d = {'a': i, 'c': 'constant-cell', 't': _SHARED}
+        if i % 2 == 0:
+            d['d'] = 'constant-cell'
+        yield d
 
 
 EXTRA = {
@@ -96,6 +108,7 @@ EXTRA = {
     'x:fromjson-lines-memory': lambda s: petl.fromjson(_files['mem:jsonl'], lines=True),
     'x:fromdicts-list': lambda s: petl.fromdicts(list(_dictgen(len(s) - 1))),
     'x:fromdicts-generator': lambda s: petl.fromdicts(_dictgen(len(s) - 1), header=['a', 'b']),
+    'x:fromdicts-generator-shared-cells': lambda s: petl.fromdicts(_dictgen_shared(len(s) - 1), header=['a', 'c', 'd', 't'], missing='n/a'),
     'x:fromdicts-generator-sample2': lambda s: petl.fromdicts(_dictgen(len(s) - 1), sample=2),
     'x:fromcolumns': lambda s: petl.fromcolumns([[1, 2, 3], ['a', 'b']]),
     'x:randomtable': lambda s: petl.randomtable(2, len(s) - 1, seed=3),
